@@ -64,7 +64,7 @@ ASSUMPTIONS = [
     "out of domain)",
     "FSA.accepts is fed a string for one-character names and a list of names "
     "for multi-character names (it iterates its argument)",
-    "library constructions that exceed a wall-clock guard (4 s quick, 150 s "
+    "library constructions that exceed a wall-clock guard (3 s quick, 150 s "
     "thorough; large compact/affine parabolic subgroups) are dropped as a "
     "diagnostic and never judged; the even-length variant is only built for "
     "automata with <= 260 (quick) / 500 (thorough) states (automaton_multiple "
@@ -137,7 +137,7 @@ def build_automaton(run, G, **kw):
     matrices (large compact/affine parabolic subgroups) make the library's
     construction take minutes; those cases are dropped (diagnostic), never
     judged."""
-    limit = 150.0 if run.tier == "thorough" else 4.0
+    limit = 150.0 if run.tier == "thorough" else 3.0
     try:
         with time_budget(limit):
             return G.automaton(**kw)
@@ -1140,7 +1140,7 @@ def wl_matrix_fn(run, rng, idx):
         run.current_case = {"function": "generate_automaton_coxeter_matrix",
                             "matrix": raw_matrix(M, inf), "packaging": how, "lex_reduced": lex}
         try:
-            with time_budget(150.0 if run.tier == "thorough" else 4.0):
+            with time_budget(150.0 if run.tier == "thorough" else 3.0):
                 if idx % 2:
                     coxeter_automaton.generate_automaton_coxeter_matrix(raw, lex_reduced=lex)
                 else:
@@ -1285,10 +1285,10 @@ def wl_selfcheck(run, rng, idx):
 WORKLOADS = [
     Workload("rank2", wl_rank2, quick=7, thorough=28),
     Workload("rank3", wl_rank3, quick=84, thorough=343),
-    Workload("rank4", wl_rank4, quick=36, thorough=400),
+    Workload("rank4", wl_rank4, quick=34, thorough=400),
     Workload("rank4-all-orbits", wl_rank4_orbits, quick=0, thorough=(7 ** 6 + BLOCK4 - 1) // BLOCK4),
     Workload("rank5", wl_rank5, quick=16, thorough=160),
-    Workload("long-words", wl_long_words, quick=24, thorough=640),
+    Workload("long-words", wl_long_words, quick=20, thorough=640),
     Workload("matrix-fn", wl_matrix_fn, quick=30, thorough=320),
     Workload("tutorial", wl_tutorial, quick=4, thorough=16),
     Workload("oracle-selfcheck", wl_selfcheck, quick=8, thorough=96),
